@@ -32,17 +32,20 @@ type CompileOptions struct {
 // Compile converts the given Pipeline Query Language statement
 // into the equivalent SQL.
 func (opts *CompileOptions) Compile(source string) (string, error) {
+	verifPoint("Enter")
 	stmts, err := parser.Parse(source)
 	if err != nil {
 		return "", err
 	}
 	var expr *parser.TabularExpr
 	scope := make(map[string]string)
+	verifPoint("CopyStart")
 	if opts != nil {
 		for k, v := range opts.Parameters {
 			scope[k] = v
 		}
 	}
+	verifPoint("CopyEnd")
 	for _, stmt := range stmts {
 		switch stmt := stmt.(type) {
 		case *parser.TabularExpr:
@@ -71,7 +74,9 @@ func (opts *CompileOptions) Compile(source string) (string, error) {
 			if err := writeSignOperand(ctx, sb, stmt.X); err != nil {
 				return "", err
 			}
+			verifPoint("BindLet")
 			scope[stmt.Name.Name] = sb.String()
+			verifPoint("BindDone")
 		default:
 			return "", &compileError{
 				source: source,
@@ -116,6 +121,7 @@ func (opts *CompileOptions) Compile(source string) (string, error) {
 		return "", err
 	}
 	sb.WriteString(";")
+	verifPoint("Return")
 	return sb.String(), nil
 }
 
@@ -863,7 +869,9 @@ var knownFunctions struct {
 }
 
 func initKnownFunctions() map[string]*functionRewrite {
+	verifPoint("OnceEnter")
 	knownFunctions.init.Do(func() {
+		verifPoint("InitStart")
 		knownFunctions.m = map[string]*functionRewrite{
 			"count":     {write: writeCountFunction},
 			"countif":   {write: writeCountIfFunction},
@@ -877,7 +885,9 @@ func initKnownFunctions() map[string]*functionRewrite {
 			"tolower":   {write: writeToLowerFunction, needsParens: true},
 			"toupper":   {write: writeToUpperFunction, needsParens: true},
 		}
+		verifPoint("InitEnd")
 	})
+	verifPoint("TableRead")
 	return knownFunctions.m
 }
 
